@@ -1,5 +1,6 @@
 """helpers shared by the b10 properties (C17, C19, C39): parsing of the canonical
 observable text, Coq term builders for the storer-API operations"""
+import re
 
 
 def parse_out(s):
@@ -22,6 +23,58 @@ def parse_out(s):
     if pos != len(toks):
         raise ValueError("trailing tokens in " + s[:80])
     return v
+
+
+ERRS = {"eNF": "ref_not_found", "eCH": "ref_changed", "eON": "obj_not_found", "eIT": "invalid_type",
+        "eEF": "empty_ref_file", "ePB": "packed_refs_bad_format"}
+_REF = re.compile(r"^(\d+)([hs])(\d+)$")
+
+
+def expand_atom(a):
+    """compact observable symbol (Spec/AStore.v o_res) -> the nested form the oracles work on"""
+    if a == "ok":
+        return ["ok"]
+    if a in ERRS:
+        return ["err", ERRS[a]]
+    if a[:1] == "e" and len(a) > 1 and a[1].isupper():
+        return ["err", a]
+    m = re.match(r"^([hs])(\d+)$", a)
+    if m:
+        return ["ok", [m.group(1), m.group(2)]]
+    if re.match(r"^n\d+$", a):
+        return ["ok", a[1:]]
+    if a[:1] == "L" and (len(a) == 1 or a[1] == "_"):
+        out = ["ok"]
+        for part in a.split("_")[1:]:
+            m = _REF.match(part)
+            out.append([m.group(1), [m.group(2), m.group(3)]] if m else part)
+        return out
+    if re.match(r"^o\d+_\d+_\d+$", a):
+        return ["ok"] + a[1:].split("_")
+    if a[:1] in "IQ" and (len(a) == 1 or a[1] == "_"):
+        return ["ok"] + a.split("_")[1:]
+    if re.match(r"^G\d+(_|$)", a):
+        parts = a.split("_")
+        return [parts[0][1:]] + parts[1:]
+    if re.match(r"^R[kg](_|$)", a):
+        out = ["unpack_ok" if a[1] == "k" else "unpack_err"]
+        for part in a.split("_")[1:]:
+            out.append([part[:-1], "ok" if part[-1] == "k" else "ng"])
+        return out
+    if re.match(r"^c\d+_(z|\d+)_(z|\d+)$", a):
+        n, o, w = a[1:].split("_")
+        return [n, "zero" if o == "z" else o, "zero" if w == "z" else w]
+    return a
+
+
+def expand(v):
+    if isinstance(v, list):
+        return [expand(x) for x in v]
+    return expand_atom(v)
+
+
+def parse_expanded(s):
+    return expand(parse_out(s))
 
 
 def show_out(v):
@@ -91,3 +144,113 @@ def coq_ops(ops):
 def coq_universe(objs):
     """[[type, hexbody], ...] -> list (N * N) of (type, size)"""
     return "[" + "; ".join("(%d, %d)" % (t, len(b) // 2) for t, b in objs) + "]"
+
+
+class AbsStore:
+    """python twin of Spec/AStore.v st_step (the abstract repository store); results are in the nested
+    form that parse_expanded produces.  Cross-checked against the Coq definition on a sample of every run."""
+
+    def __init__(self, objs):
+        self.types = [t for t, _ in objs]
+        self.sizes = [len(b) // 2 for _, b in objs]
+        self.refs, self.objs, self.idx, self.cfg, self.shallow, self.logs = {}, set(), 0, 0, [], {}
+
+    def copy(self):
+        c = AbsStore([])
+        c.types, c.sizes = self.types, self.sizes
+        c.refs, c.objs, c.idx, c.cfg = dict(self.refs), set(self.objs), self.idx, self.cfg
+        c.shallow, c.logs = list(self.shallow), {k: list(v) for k, v in self.logs.items()}
+        return c
+
+    @staticmethod
+    def _hash(v):
+        return v[1] if v[0] == "h" else None
+
+    @staticmethod
+    def _rv(v):
+        return [v[0], str(v[1])]
+
+    def _typ_match(self, t, k):
+        return t == 0 or (k < len(self.types) and self.types[k] == t) or (k >= len(self.types) and t == 0)
+
+    def _valid(self, k):
+        return k < len(self.types) and 1 <= self.types[k] <= 4
+
+    def list_refs(self):
+        ents = sorted(self.refs.items(), key=lambda e: (e[0], 2 * e[1][1] + (1 if e[1][0] == "s" else 0)))
+        return ["ok"] + [[str(n), self._rv(v)] for n, v in ents]
+
+    def list_objs(self, t=0):
+        return ["ok"] + [str(k) for k in sorted(self.objs) if self._typ_match(t, k)]
+
+    def step(self, o):
+        k = o[0]
+        if k in ("setref", "casnil"):
+            self.refs[o[1]] = tuple(o[2])
+            return ["ok"]
+        if k == "cas":
+            cur = self.refs.get(o[3])
+            if cur is None:
+                return ["err", "ref_not_found"]
+            if self._hash(cur) != self._hash(o[4]):
+                return ["err", "ref_changed"]
+            self.refs[o[1]] = tuple(o[2])
+            return ["ok"]
+        if k == "getref":
+            v = self.refs.get(o[1])
+            return ["ok", self._rv(v)] if v is not None else ["err", "ref_not_found"]
+        if k == "iterrefs":
+            return self.list_refs()
+        if k == "delref":
+            self.refs.pop(o[1], None)
+            return ["ok"]
+        if k == "setobj":
+            if not self._valid(o[1]):
+                return ["err", "invalid_type"]
+            self.objs.add(o[1])
+            return ["ok", str(o[1])]
+        if k == "hasobj":
+            return ["ok"] if o[1] in self.objs else ["err", "obj_not_found"]
+        if k == "sizeobj":
+            return ["ok", str(self.sizes[o[1]])] if o[1] in self.objs else ["err", "obj_not_found"]
+        if k == "getobj":
+            t, x = o[1], o[2]
+            if x in self.objs and self._typ_match(t, x):
+                return ["ok", str(x), str(self.types[x]), str(self.sizes[x])]
+            return ["err", "obj_not_found"]
+        if k == "iterobjs":
+            return self.list_objs(o[1])
+        if k == "setidx":
+            self.idx = o[1]
+            return ["ok"]
+        if k == "getidx":
+            return ["ok", str(self.idx)]
+        if k == "setcfg":
+            self.cfg = o[1]
+            return ["ok"]
+        if k == "getcfg":
+            return ["ok", str(self.cfg)]
+        if k == "setshallow":
+            self.shallow = list(o[1])
+            return ["ok"]
+        if k == "getshallow":
+            return ["ok"] + [str(x) for x in self.shallow]
+        if k == "applog":
+            self.logs.setdefault(o[1], []).append(o[2])
+            return ["ok"]
+        if k == "getlog":
+            return ["ok"] + [str(x) for x in self.logs.get(o[1], [])]
+        if k == "dellog":
+            self.logs.pop(o[1], None)
+            return ["ok"]
+        if k in ("packrefs", "reopen"):
+            return ["ok"]
+        if k == "addpack":
+            self.objs.update(o[1])
+            return ["ok"]
+        raise ValueError("AbsStore: unknown call %r" % (o,))
+
+    def snapshot(self):
+        return [self.list_refs(), self.list_objs(0), ["ok", str(self.idx)], ["ok", str(self.cfg)],
+                ["ok"] + [str(x) for x in self.shallow],
+                [[str(n)] + [str(e) for e in es] for n, es in sorted(self.logs.items()) if es]]
